@@ -61,6 +61,28 @@ void body() {
             gcache = new GlobalSimpleStringCache();
             rec.quiet = false;
         }
+        else if (w[0] == "gnested" && !cache && !gcache) {
+            // The one-time warning is printed through the test's output, whose text buffer was allocated
+            // BEFORE the global cache was installed: appending the warning re-allocates that text through
+            // the cache and releases the old, unknown buffer from inside the warning itself.  The warning
+            // must still appear exactly once.  Underlying-allocator events are not part of this scenario.
+            vh::emit_op("gnested");
+            UtestShell::getCurrent()->print("output produced before the cache was installed, long enough to be re-allocated when more text is appended ................................................................................................\n", __FILE__, __LINE__);
+            // the cache's underlying allocator and the cache itself are deliberately kept (and kept installed)
+            // until the case child exits: the output's text lives in a cache buffer from now on
+            RecordingAllocator* keep = new RecordingAllocator();
+            keep->quiet = true;
+            SimpleString::setStringAllocator(keep);
+            GlobalSimpleStringCache* g = new GlobalSimpleStringCache();
+            g->getAllocator()->free_memory(g_foreign[0], 10, __FILE__, __LINE__);
+            g->getAllocator()->free_memory(g_foreign[1], 300, __FILE__, __LINE__);
+            g->getAllocator()->free_memory(g_foreign[2], 10, __FILE__, __LINE__);
+            std::string out = vh::fixture_output();
+            unsigned long n = 0; size_t pos = 0;
+            while ((pos = out.find("WARNING: Attempting to deallocate a String buffer", pos)) != std::string::npos) { n++; pos++; }
+            vh::emit("warncount %lu", n);
+            continue;       // the generic print/warn detection below is not used for this op
+        }
         else if (w[0] == "alloc" && w.size() >= 2 && gcache) {       // through SimpleStringCacheAllocator::alloc_memory
             size_t size = (size_t) vh::to_u64(w[1]);
             vh::emit("> alloc %lu", (unsigned long) size);
